@@ -557,6 +557,7 @@ type vxC04SessCase struct {
 	Codec    string            `json:"codec"`
 	Consumer int               `json:"consumer"`
 	Batch    bool              `json:"batch,omitempty"` // the statement travels as a one-statement BATCH (a conditional batch is answered with rows)
+	Again    int               `json:"again,omitempty"` // afterwards the same Query object is executed again through 1 Query.Scan, 2 Query.MapScan (first row or ErrNotFound)
 }
 
 type vxTracer struct{ ids [][]byte }
@@ -577,7 +578,7 @@ func TestVxC04Session(t *testing.T) {
 			}
 			return &vxC04SessCase{Resp: r, Prepared: rapid.Bool().Draw(t, "prepared"), NoSkip: rapid.IntRange(0, 3).Draw(t, "noskip") == 0,
 				Codec: rapid.SampledFrom([]string{"", "", "snappy", "lz4"}).Draw(t, "codec"), Consumer: rapid.IntRange(0, 4).Draw(t, "consumer"),
-				Batch: rapid.IntRange(0, 4).Draw(t, "batch") == 0}
+				Batch: rapid.IntRange(0, 4).Draw(t, "batch") == 0, Again: rapid.SampledFrom([]int{0, 0, 1, 2}).Draw(t, "again")}
 		},
 		New: func() interface{} { return &vxC04SessCase{} },
 		Run: func(ci interface{}, k *vstats.Case) error {
@@ -715,6 +716,45 @@ func TestVxC04Session(t *testing.T) {
 			if err := vxConsumeRows(iter, r, c.Consumer, k); err != nil {
 				return fmt.Errorf("ROWS v%d prepared=%v skipped=%v (%d cols, %d rows, consumer %d): %v", r.Version, c.Prepared, skipped, len(r.Meta.Columns), len(r.Rows), c.Consumer, err)
 			}
+			// the one-row conveniences, on the Query object that was executed already
+			names := map[string]bool{}
+			for _, col := range r.Meta.Columns {
+				names[col.Name] = true
+			}
+			switch {
+			case c.Again == 1 || (c.Again == 2 && (vxHasOpaqueColumn(r.Meta) || len(names) != len(r.Meta.Columns))):
+				k.Class("again: Query.Scan")
+				dests := vxRowHolders(r.Meta)
+				err := q.Scan(vxDestArgs(dests)...)
+				if len(r.Rows) == 0 {
+					if err != ErrNotFound {
+						return fmt.Errorf("Query.Scan over a result without rows returned %v, want ErrNotFound", err)
+					}
+					return nil
+				}
+				if err != nil {
+					return fmt.Errorf("Query.Scan: %v", err)
+				}
+				if err := vxCmpDestRow(r, 0, dests); err != nil {
+					return fmt.Errorf("Query.Scan (%d cols, %d rows): %v", len(r.Meta.Columns), len(r.Rows), err)
+				}
+			case c.Again == 2:
+				k.Class("again: Query.MapScan")
+				m := map[string]interface{}{}
+				err := q.MapScan(m)
+				if len(r.Rows) == 0 {
+					if err != ErrNotFound {
+						return fmt.Errorf("Query.MapScan over a result without rows returned %v, want ErrNotFound", err)
+					}
+					return nil
+				}
+				if err != nil {
+					return fmt.Errorf("Query.MapScan: %v", err)
+				}
+				if err := vxCmpMapRow(r, 0, m); err != nil {
+					return fmt.Errorf("Query.MapScan (%d cols, %d rows): %v", len(r.Meta.Columns), len(r.Rows), err)
+				}
+			}
 			return nil
 		},
 	})
@@ -766,6 +806,7 @@ type vxC03SessCase struct {
 	CfgCQL    string `json:"cfg_cql,omitempty"`     // ClusterConfig.CQLVersion (STARTUP's CQL_VERSION)
 	ConsVia   int    `json:"cons_via,omitempty"`    // 0 on the statement, 1 ClusterConfig.Consistency, 2 Session.SetConsistency
 	Twice     bool   `json:"twice,omitempty"`       // the same Query / Batch object is executed a second time: the same request must go out again
+	Released  bool   `json:"released,omitempty"`    // before the statement is built, another Query with every option set otherwise was released into the driver's pool of Query objects
 	Layout    int    `json:"layout,omitempty"`      // how the prepared statement's text is laid out: 0 one line, 1 keyword followed by a newline, 2 tabs, 3 leading white space and lower case, 4 mixed case with a trailing newline
 }
 
@@ -830,6 +871,7 @@ func TestVxC03Session(t *testing.T) {
 			c.CfgCQL = rapid.SampledFrom([]string{"", "", "3.4.4", "3.0.0", "4.0.0-beta"}).Draw(t, "cfg_cql")
 			c.ConsVia = rapid.SampledFrom([]int{0, 0, 1, 2}).Draw(t, "cons_via")
 			c.Twice = rapid.IntRange(0, 3).Draw(t, "twice") == 0
+			c.Released = rapid.IntRange(0, 2).Draw(t, "released") == 0
 			c.Layout = rapid.SampledFrom([]int{0, 0, 0, 1, 2, 3, 4}).Draw(t, "layout")
 			if c.Kind == "batch" && c.Proto < 2 {
 				c.Proto = 2
@@ -965,6 +1007,16 @@ func TestVxC03Session(t *testing.T) {
 					return "Select a From t Where " + conds + "\n"
 				}
 				return "SELECT a FROM t WHERE " + conds
+			}
+			if c.Released {
+				// Query objects are pooled: what a released one was told must not reach the next statement
+				k.Class("after a released Query")
+				for i := 0; i < 3; i++ {
+					dq := s.Query("LIST other", 1, "two").Consistency(All).PageSize(7).PageState([]byte{9, 9}).SerialConsistency(LocalSerial).
+						WithTimestamp(99).DefaultTimestamp(true).Idempotent(true).RetryPolicy(&SimpleRetryPolicy{NumRetries: 3}).Trace(&vxTracer{}).
+						CustomPayload(map[string][]byte{"other": {1}}).RoutingKey([]byte("rk")).Prefetch(0.9).NoSkipMetadata()
+					dq.Release()
+				}
 			}
 			t0 := time.Now()
 			var execErr error
